@@ -4,6 +4,7 @@ package document
 import (
 	"encoding/xml"
 	"fmt"
+	"reflect"
 	"strings"
 )
 
@@ -771,42 +772,9 @@ func (t *Table) ClearTable() {
 
 // CopyTable 复制表格
 func (t *Table) CopyTable() *Table {
-	// 深拷贝表格结构
-	newTable := &Table{
-		Properties: t.Properties,
-		Grid:       t.Grid,
-		Rows:       make([]TableRow, len(t.Rows)),
-	}
-
-	// 复制所有行和单元格
-	for i, row := range t.Rows {
-		newTable.Rows[i] = TableRow{
-			Properties: row.Properties,
-			Cells:      make([]TableCell, len(row.Cells)),
-		}
-
-		for j, cell := range row.Cells {
-			newTable.Rows[i].Cells[j] = TableCell{
-				Properties: cell.Properties,
-				Paragraphs: make([]Paragraph, len(cell.Paragraphs)),
-			}
-
-			// 复制段落内容
-			for k, para := range cell.Paragraphs {
-				newTable.Rows[i].Cells[j].Paragraphs[k] = Paragraph{
-					Properties: para.Properties,
-					Runs:       make([]Run, len(para.Runs)),
-				}
-
-				for l, run := range para.Runs {
-					newTable.Rows[i].Cells[j].Paragraphs[k].Runs[l] = Run{
-						Properties: run.Properties,
-						Text:       Text{Content: run.Text.Content},
-					}
-				}
-			}
-		}
-	}
+	// 深拷贝表格：属性、网格、行、单元格（含嵌套表格）及其段落全部逐层复制，
+	// 副本与原表格不共享任何可变对象
+	newTable := deepCopyValue(reflect.ValueOf(t)).Interface().(*Table)
 
 	Info("表格复制成功")
 	return newTable
